@@ -152,7 +152,10 @@ Fixpoint ifindnext (fix5 : bool) (fuel : nat) (ls : layers_t) (c : ictx) (cbs : 
           let ekt := if cmp0 then end_tuple c (length below) else (if rtl then kt_min else kt_max) in
           let es := if rtl then rev (leaf_ranked l) else leaf_ranked l in
           let n := length es in
-          let no_cb_at_end := ep_eqb (ic_end_ep c) EP_INCL && kt_eq last ekt in
+          (* "the callback range (last key .. range end] is empty": only in the layer that holds the range end (cmp0);
+             elsewhere [ekt] is a sentinel and a link tuple with an all-0xFF slice may equal it (finding F13; fix5 = false
+             keeps the pinned behaviour) *)
+          let no_cb_at_end := (negb fix5 || cmp0) && ep_eqb (ic_end_ep c) EP_INCL && kt_eq last ekt in
           if Nat.leb n (ie_rank top) then
             (* permutation exhausted: move to the neighbour *)
             let cbs' := if no_cb_at_end then cbs else cbs ++ [(lf_id l, lf_ver l)] in
